@@ -49,6 +49,7 @@ fn oracle(s: &ProgScene<X>, t: &Trace) -> Vec<Violation> {
         };
         match rel {
             std::cmp::Ordering::Less => {
+                crate::check::oblige(if x.timeout.is_some() { "below-limit-completes" } else { "no-timeout-completes" });
                 // must complete - unless the actor had failed before (fail config) or the run was cut
                 let failed_before = first_exceeded.is_some() && x.fail;
                 if !failed_before && (!after || exit.is_none()) && t.res.end == crate::vexec::EndReason::Quiescent {
@@ -70,6 +71,7 @@ fn oracle(s: &ProgScene<X>, t: &Trace) -> Vec<Violation> {
             }
             std::cmp::Ordering::Greater => {
                 let tm = x.timeout.unwrap_or(0) as u64;
+                crate::check::oblige("above-limit-abandoned");
                 if first_exceeded.is_none() {
                     first_exceeded = Some(id);
                 }
@@ -124,6 +126,7 @@ fn oracle(s: &ProgScene<X>, t: &Trace) -> Vec<Violation> {
                 }
             }
             std::cmp::Ordering::Equal => {
+                crate::check::oblige("tie-consistent");
                 // either outcome; but consistent: the after mark and the call result agree
                 if let Some(c) = call {
                     if c.end.is_some() && c.ok() != exit.is_some() {
@@ -160,6 +163,7 @@ fn oracle(s: &ProgScene<X>, t: &Trace) -> Vec<Violation> {
         x.timeout.is_some_and(|tm| d > tm)
     });
     if x.fail && certain_exceed {
+        crate::check::oblige("fail-on-timeout-terminates");
         // terminates as failed: await Err, join None, no stopped()
         if an.enters.iter().any(|e| e.a == 0 && e.cb == Cb::Stopped) {
             out.push(Violation {
@@ -195,6 +199,7 @@ fn oracle(s: &ProgScene<X>, t: &Trace) -> Vec<Violation> {
         // every submitted message is eventually entered (the actor carries on)
         let tie_failed = x.fail && first_exceeded.is_some();
         if !tie_failed {
+            crate::check::oblige("carries-on");
             for (id, _) in &x.durations {
                 if an.enter_of_msg(0, *id).is_empty() {
                     out.push(Violation {
@@ -326,6 +331,7 @@ pub fn property() -> Property {
     Property {
         id: "C11",
         cases,
+        clauses: &["below-limit-completes", "no-timeout-completes", "above-limit-abandoned", "tie-consistent", "fail-on-timeout-terminates", "carries-on"],
         assumptions: &[
             "handler durations are virtual sleeps; computation itself takes no virtual time (that is what 'needs less than t' means on the virtual clock)",
             "a handler that needs exactly t may complete or be abandoned (the select! tie-break is explored as a choice)",
